@@ -73,6 +73,8 @@ def render_job(job) -> Tuple[List[Dict[str, Any]], List[Dict[str, Any]]]:
             dl = shaped_deal(r) if r.random() < 0.3 else random_deal(r)
             dealer, v, first = r.randrange(4), r.randrange(4), r.randrange(4)
             bid_ = rand_name(r)
+            if boards and r.random() < 0.15:
+                bid_ = boards[r.randrange(len(boards))]['id']     # two boards with the same id
             boards.append({'deal': dl, 'dealer': dealer, 'vul': v, 'id': bid_, 'first': first})
             symmap[f'Board{g}'] = bid_
             symmap[f'Deal{g}'] = make_hands(dl).to_pbn(Player(first + 1))
